@@ -52,6 +52,9 @@ fn stages() -> Vec<Op1> {
   v.extend([
     Op1::Finalize,
     Op1::BoxIt,
+    // still skipping when the stream is ended by another path
+    Op1::Skip(5),
+    Op1::SkipLast(5),
     Op1::GroupByFlatten(K::Mod2),
     Op1::Delay(1),
     Op1::ObserveOn,
